@@ -122,7 +122,10 @@ class C09(core.PropertyCheck):
                 parts = [rng.choice(["txt", "txt", "foot", "itgt", "foot", "itgt"]) for _ in range(rng.randint(1, 3))]
                 secs.append({"label": rng.choice([None, f"lab{k}", f"lab{k}"]), "parts": parts})
             labels = [s_["label"] for s_ in secs if s_["label"]]
-            yield {"kind": "titled", "secs": secs, "refs": [rng.choice(labels) for _ in range(rng.randint(0, 2))] if labels else [],
+            # collapsible sections as the parser builds them: with a heading (repeated headings collide), or - a mistake that is
+            # reported but still emitted - without one
+            colls = [rng.choice([None, None, "More", "More", "Sec0 Part0"]) for _ in range(rng.choice([0, 0, 1, 2, 3]))]
+            yield {"kind": "titled", "secs": secs, "colls": colls, "refs": [rng.choice(labels) for _ in range(rng.randint(0, 2))] if labels else [],
                    "other_refs": [rng.choice(labels) for _ in range(rng.randint(0, 2))] if labels else [], "other_footrefs": rng.randint(0, 2)}
         for _ in range(budget // 5):
             tnames = [x for x in names if x.strip() and "\t" not in x and not x.startswith("-")]
@@ -141,6 +144,8 @@ class C09(core.PropertyCheck):
                     keep = case["secs"][:i] + case["secs"][i + 1:]
                     labs = {x["label"] for x in keep}
                     yield {**case, "secs": keep, "refs": [r for r in case["refs"] if r in labs], "other_refs": [r for r in case["other_refs"] if r in labs]}
+            for i in range(len(case.get("colls", []))):
+                yield {**case, "colls": case["colls"][:i] + case["colls"][i + 1:]}
             for key in ("refs", "other_refs"):
                 for i in range(len(case[key])):
                     yield {**case, key: case[key][:i] + case[key][i + 1:]}
@@ -218,6 +223,8 @@ class C09(core.PropertyCheck):
                         words.append(f"_`tgt {nt}`")
                 title = f"Sec{k} " + " ".join(words)
                 lines += [title, "-" * (len(title) + 2), "", "Body.", ""]
+            for h in case.get("colls", []):
+                lines += [".. collapsible::"] + ([f"   :heading: {h}"] if h else []) + ["", "   Hidden text.", ""]
             for r in case["refs"]:
                 lines += [f"See :ref:`{r}` here.", ""]
             lines += [f".. [#] note {i}" for i in range(12)] + [""]
